@@ -16,6 +16,11 @@ A case of this check is a *scenario* (pure JSON):
             post_mkdir (after os.makedirs of the case directory), post_func (study function returned, before
             np.savez), mid_savez (np.savez done, file truncated to half its size), post_savez, post_marker
             (mp_success.log written and closed), post_success_line (success line appended to tpy_mp.log).
+            Header steps (kill in the study PARENT while it writes the header of tpy_mp.log, before the pool
+            exists and before any case has started; `case` then only selects the cut of header_mid_inputs):
+            header_empty (log file created by open(.., 'w'), still empty), header_mid_inputs (log flushed after
+            1 .. dims-1 input lines, i.e. cut between input lines; with one axis: after its only line),
+            header_no_close (all input lines flushed, closing '------------' line missing).
   work_ms   unit of the per-case sleep inside the study function (spreads the workers over the steps)
 
 Every scenario runs three times `python -m vlib.mp_driver` (own session/process group, stdin=/dev/null) in
@@ -44,12 +49,13 @@ Oracles (exactly the clauses of the statement)
               the study function saw are the grid values at that index (harness model of the grid:
               linspace/logspace + must_include, unique).  The same clause is applied to the reference run.
   counters    executions per grid point (counter lines, grouped by the args they record): >= 1; <= 1 for
-              cases complete at the kill (not executed again); <= 2 otherwise; and no execution of a
-              point outside the grid.
+              cases complete at the kill (not executed again); <= 2 otherwise (<= 1 after a header kill: no case
+              had started, so run 2 must execute every case exactly once); and no execution of a point
+              outside the grid.
 No numeric tolerance anywhere (equality only; see 'equal').
 
 Non-trivial = at the restart at least one case was complete and at least one was not (kill fired, or cases
-raised).  Distinct = distinct scenario JSON.  The positions of the *other* workers at the kill are whatever
+raised), or a header kill fired (the log exists but is incomplete).  Distinct = distinct scenario JSON.  The positions of the *other* workers at the kill are whatever
 the OS scheduler made of them (plus delay_ms, work_ms): sampled, not controlled - stated limitation.
 
 Sensitivity (tools/mut.py, quick tier, all CAUGHT; signatures seen in brackets):
@@ -57,6 +63,9 @@ Sensitivity (tools/mut.py, quick tier, all CAUGHT; signatures seen in brackets):
   fixes/revert-f86d9b1.diff (case_number=run_num closure)                   [labels + one_result, reference and restart]
   fixes/revert-ae3bd3c.diff (success marker written before the result file) [completes/exception FileNotFoundError,
                                                                              BadZipFile, EOFError]
+  fixes/revert-94c69eb.diff (incomplete log header taken for a study to restart) [completes/exception IndexError
+                      (header_empty); equal, labels, counters/never_executed + point_outside_grid (header_mid_inputs:
+                      the restart runs a smaller grid)]
   dropped `continue` after `skipped_indicies[run_num] = ...` (completed cases run again)
                                                           [counters/completed_case_executed_again, one_result/duplicate]
   `mp_results = mp_results + previous_run_data` -> `pass` (reloaded results dropped)       [one_result/missing]
@@ -65,11 +74,10 @@ Sensitivity (tools/mut.py, quick tier, all CAUGHT; signatures seen in brackets):
   `previous_run_data.append((run_num, run_indicies, ...` -> `run_indicies[::-1]`           [labels]
   np.load of the first skipped case's file for every skipped case (stale alias)            [equal, labels]
 
-Outside the enumerated steps (experiment, not part of the verdict): a kill while the log header is being written
-(tpy_mp.log exists but is empty/incomplete) makes the restart raise IndexError (mesh[0] of an empty grid) or run a
-smaller grid; proposed patch in out/proposed-fix-C18-1.diff.
+Note: on the tree before 94c69eb a header_no_close log happened to restart correctly (the parser simply ran to the
+end of the file), so that variant does not discriminate the revert; header_empty and header_mid_inputs do.
 
-Measured: one scenario ~3 CPU-s (three runs of ~1 s: 0.8 s import + pool start); quick = 18 fixed + 142 generated
+Measured: one scenario ~3 CPU-s (three runs of ~1 s: 0.8 s import + pool start); quick = 24 fixed + 142 generated
 scenarios on 16 shards.
 """
 import json
@@ -85,18 +93,18 @@ import numpy as np
 from hypothesis import strategies as st
 
 from vlib import env
-from vlib.mp_driver import STEPS, f_value
+from vlib.mp_driver import CASE_STEPS, HEADER_STEPS, STEPS, f_value, header_lines
 from vlib.result import Collector, HarnessError, discard
 
 ID = 'C18'
 TECHNIQUE = ('fault-injection fuzzing (Hypothesis scenarios + enumerated kill points): SIGKILL of the study process '
              'group at instrumented bookkeeping steps, restart, differential against an uninterrupted reference run')
 LEVEL = 'fault_enumeration'
-LEVEL_TEXT = ('Fault enumeration over the named bookkeeping steps of one case (8 kill steps x every case of the enumerated '
+LEVEL_TEXT = ('Fault enumeration over the named bookkeeping steps (8 kill steps inside one case + 3 kill points inside the log header; 8 steps x every case of the enumerated '
               'grids x pool sizes, plus generated grids/pools/raising subsets): for every scenario run, the restart completed, '
               'returned exactly one correctly labelled result per case equal to an uninterrupted run, and did not re-execute '
               'completed cases.  The interleaving of the other pool workers at the kill is sampled (scheduler, delays), not '
-              'enumerated; kills inside the study preamble (writing the log header) are outside the enumerated steps.')
+              'enumerated; header kills are modelled at line granularity (empty / cut between lines / closing line missing), not mid-line.')
 LEVEL_NOTE = ('Trusts: Linux SIGKILL/process-group semantics and page-cache persistence across SIGKILL (no power loss model), '
               'fork start method of pathos/multiprocess and dill by-reference pickling of module globals (asserted in selftest), '
               'the harness model of the grid (numpy linspace/logspace/unique), and the injected truncation as model of a '
@@ -109,12 +117,13 @@ RUN_TIMEOUT = 90.0           # seconds per study run; a healthy run takes ~1 s (
 MAX_POINTS = 64
 
 RULE = ('A scenario = (1-3 axes with n 2-4, linear/log, must_include as []/list/tuple; pool 4-16; raising subset; kill point '
-        '(case k, one of 8 steps, delay) or none).  Fixed cases enumerate every kill step (thorough: every (case, step) of a '
+        '(case k, one of 8 case steps or 3 log-header steps, delay) or none).  Fixed cases enumerate every kill step (thorough: every (case, step) of a '
         '3x3 grid x 4 pool sizes x 2 delays); the rest is drawn by Hypothesis.  Non-trivial: at the restart >= 1 case was '
-        'complete (success marker and loadable result file) and >= 1 was not.  Distinct = distinct scenario JSON.')
+        'complete (success marker and loadable result file) and >= 1 was not, or a header kill fired.  Distinct = distinct scenario JSON.')
 ASSUMPTIONS = ['equality of results is bitwise (same function, same grid values; repr() round-trips doubles)',
                'SIGKILL of the whole process group models "process killed"; the schedule of the other workers is sampled',
                'mid_savez models a partially written result file by truncating the finished file to half its size',
+               'header_* kills model a partially written log header by flushing the lines written so far before SIGKILL',
                'complete-at-kill := mp_success.log exists and mp_results.npz loads with arrays v and args',
                'run timeout %.0f s (healthy run ~1 s): longer => reported as hang' % RUN_TIMEOUT]
 
@@ -199,6 +208,17 @@ def _axis(draw, i, max_len):
     return {'name': 'ax%d' % i, 'start': start, 'end': end, 'scale': scale, 'n': n, 'mi_as': mi_as, 'mi': mi}
 
 
+def _rotated_steps():
+    """STEPS, rotated by the shard index when running under vlib.shard: Hypothesis starts every shard with the
+    minimal example (first element of every sampled_from), which would otherwise be the same scenario 16 times."""
+    import sys
+    try:
+        r = int(sys.argv[4]) % len(STEPS) if sys.argv[0].endswith('shard.py') else 0
+    except (IndexError, ValueError):
+        r = 0
+    return list(STEPS[r:] + STEPS[:r])
+
+
 @st.composite
 def _scenario(draw):
     dims = draw(st.sampled_from([1, 2, 2, 2, 3]))
@@ -210,7 +230,7 @@ def _scenario(draw):
     if draw(st.sampled_from(['kill'] * 7 + ['none'])) == 'none':
         kill = None
     else:
-        kill = {'case': draw(st.integers(0, n_pts - 1)), 'step': draw(st.sampled_from(STEPS)),
+        kill = {'case': draw(st.integers(0, n_pts - 1)), 'step': draw(st.sampled_from(_rotated_steps())),
                 'delay_ms': draw(st.sampled_from(_DELAYS))}
     return {'axes': axes, 'pool': pool, 'raise': raise_set, 'kill': kill, 'work_ms': draw(st.sampled_from([0, 1, 2, 5]))}
 
@@ -272,20 +292,34 @@ _GB = [{'name': 'ecc', 'start': 0.25, 'end': 0.75, 'scale': 'linear', 'n': 3, 'm
        {'name': 'obl', 'start': -2, 'end': 0, 'scale': 'log', 'n': 2, 'mi_as': 'tuple', 'mi': [-1.0]}]        # 4 x 3
 
 
+_G3 = [{'name': 'a', 'start': 1, 'end': 2, 'scale': 'linear', 'n': 2, 'mi_as': 'tuple', 'mi': [1.5]},
+       {'name': 'b', 'start': 0.0, 'end': 1.0, 'scale': 'log', 'n': 2, 'mi_as': 'none', 'mi': []},
+       {'name': 'c', 'start': -1.0, 'end': 1.0, 'scale': 'linear', 'n': 2, 'mi_as': 'list', 'mi': [0.25]}]   # 3 x 2 x 3
+
+
 def fixed_cases(tier):
     out = []
-    for s in STEPS:
+    for s in CASE_STEPS:
         out.append({'axes': _GA, 'pool': 4, 'raise': [1], 'kill': {'case': 5, 'step': s, 'delay_ms': 10}, 'work_ms': 1})
         out.append({'axes': _GB, 'pool': 6, 'raise': [], 'kill': {'case': 3, 'step': s, 'delay_ms': 0}, 'work_ms': 2})
+    for s in HEADER_STEPS:
+        out.append({'axes': _GA, 'pool': 4, 'raise': [], 'kill': {'case': 0, 'step': s, 'delay_ms': 0}, 'work_ms': 0})
+        out.append({'axes': _G3, 'pool': 7, 'raise': [2], 'kill': {'case': 1, 'step': s, 'delay_ms': 0}, 'work_ms': 1})
     out.append({'axes': _GA, 'pool': 5, 'raise': [0, 7, 11], 'kill': None, 'work_ms': 0})
     out.append({'axes': _GB, 'pool': 16, 'raise': [2], 'kill': None, 'work_ms': 1})
     if tier == 'thorough':
         for pool, g in ((4, 'tuple'), (6, 'list'), (9, 'tuple'), (16, 'none')):
             for k in range(9):
-                for s in STEPS:
+                for s in CASE_STEPS:
                     for d in (0, 15):
                         out.append({'axes': _G33[g], 'pool': pool, 'raise': [], 'kill': {'case': k, 'step': s, 'delay_ms': d},
                                     'work_ms': 1})
+            for s in HEADER_STEPS:
+                out.append({'axes': _G33[g], 'pool': pool, 'raise': [], 'kill': {'case': 0, 'step': s, 'delay_ms': 0},
+                            'work_ms': 1})
+        for s in HEADER_STEPS:
+            for k in (0, 1):
+                out.append({'axes': _G3, 'pool': 5, 'raise': [], 'kill': {'case': k, 'step': s, 'delay_ms': 0}, 'work_ms': 0})
     return out
 
 
@@ -299,7 +333,7 @@ def required_labels(tier):
 
 def extra_coverage(tier, merged):
     lab = merged['labels']
-    fired = {s: lab.get('killed:' + s, 0) for s in STEPS}
+    fired = {s: lab.get('killed:' + s, 0) for s in STEPS}        # 8 case steps + 3 header steps
     out = {'kill_points_fired_per_step': fired, 'kill_points_fired': sum(fired.values()),
            'kill_planned_but_not_reached': lab.get('kill:not_reached', 0),
            'scenarios_without_kill_raising_only': lab.get('kill:none', 0),
@@ -307,7 +341,7 @@ def extra_coverage(tier, merged):
                           'multiprocessing_run in its own process group; kill_points_fired counts scenarios whose SIGKILL was '
                           'actually delivered at the named step (marker file written by the proxy just before killpg).'}
     if tier == 'thorough':
-        out['enumerated'] = ('every (case 0..8, step) of a 3x3 grid x pool sizes 4, 6, 9, 16 (must_include tuple/list/tuple/none) '
+        out['enumerated'] = ('every header step and every (case 0..8, case step) of a 3x3 grid x pool sizes 4, 6, 9, 16 (must_include tuple/list/tuple/none) '
                              'x kill delay 0/15 ms = 576 scenarios, in addition to the generated ones; the schedule of the '
                              'other workers is sampled, so the space is not exhausted')
     return out
@@ -528,7 +562,7 @@ def evaluate(case):
         pool = int(case['pool'])
     kill = case['kill']
     raise_set = set(case['raise'])
-    if kill is not None and kill['step'] not in ('pre_log', 'post_log', 'post_mkdir'):
+    if kill is not None and kill['step'] in CASE_STEPS and kill['step'] not in ('pre_log', 'post_log', 'post_mkdir'):
         raise_set.discard(kill['case'])       # steps after the study function do not exist for a raising case
     c = Collector(nontrivial=False)
     c.label('dims:%d' % len(axes), 'pool:4-7' if pool < 8 else 'pool:8-11' if pool < 12 else 'pool:12-16',
@@ -590,7 +624,12 @@ def evaluate(case):
                 c.label('at_restart:dir_only')
         if len(snap) < n_pts:
             c.label('at_restart:not_started')
-        c.nontrivial = bool(complete) and len(complete) < n_pts and (fired or bool(raise_set))
+        header_kill = bool(fired and kill['step'] in HEADER_STEPS)
+        if header_kill and snap:
+            raise HarnessError('header kill fired but case directories exist: %r' % sorted(snap))
+        if header_kill and kill['step'] == 'header_mid_inputs':
+            c.label('header_lines:%d_of_%d' % (header_lines(kill['case'], len(axes)), len(axes)))
+        c.nontrivial = header_kill or (bool(complete) and len(complete) < n_pts and (fired or bool(raise_set)))
         c.label('complete_at_restart:' + ('none' if not complete else 'all' if len(complete) == n_pts else 'some'))
         executed1 = len(_read_counters(counters))
 
@@ -661,9 +700,10 @@ def evaluate(case):
         c.check(not redone, {'clause': 'counters', 'what': 'completed_case_executed_again'},
                 'cases complete at the restart (marker + loadable result) but executed again: %s; executions %s %s'
                 % (redone[:12], {k: counts.get(k, 0) for k in redone[:12]}, ctx))
-        many = sorted(k for k in range(n_pts) if k not in complete and counts.get(k, 0) > 2)
-        c.check(not many, {'clause': 'counters', 'what': 'more_than_two_executions'},
-                'executions per case %s %s' % ({k: counts.get(k, 0) for k in many[:12]}, ctx))
+        limit = 1 if header_kill else 2      # after a header kill no case had started: exactly once, all in run 2
+        many = sorted(k for k in range(n_pts) if k not in complete and counts.get(k, 0) > limit)
+        c.check(not many, {'clause': 'counters', 'what': 'more_than_two_executions' if limit == 2 else 'executed_twice_after_header_kill'},
+                'executions per case %s (allowed %d) %s' % ({k: counts.get(k, 0) for k in many[:12]}, limit, ctx))
         never = sorted(k for k in range(n_pts) if counts.get(k, 0) < 1)
         c.check(not never, {'clause': 'counters', 'what': 'never_executed'}, 'cases never executed: %s %s' % (never[:12], ctx))
         return c.result()
